@@ -905,10 +905,19 @@ def check_C04(ctx):
         if rng.random() < 0.3:
             tests[rng.randrange(n)].body.append(rng.choice(["K11", "E", "S"]))   # tests may die or skip too
         sets.append(tests)
+    # designed sets, run in every order: a test that leaves quietly (exit(), _exit(): no completion notice, no signal) comes first,
+    # last, and right after a sub-suite
+    designed = [[T("quits", body=["P", "E"]), T("plain", body=["P"]), T("fails", body=["F"])],
+                [T("quits", body=["E"]), T("plain", body=["P", "P"]), T("fails", body=["P", "F"])]]
+    sets = designed + sets
     scens, groups = [], []
     for tests in sets:
         orders = [list(tests)]
-        for _ in range(sizes(ctx, 4, 10)):
+        if any(tests is d for d in designed):
+            import itertools
+            orders = [list(p) for p in itertools.permutations(tests)] * 3      # (each order in each of the three shapes below)
+            orders.sort(key=lambda o: [t.name for t in o])
+        for _ in range(0 if any(tests is d for d in designed) else sizes(ctx, 4, 10)):
             p = list(tests); rng.shuffle(p); orders.append(p)
         for _ in range(2):
             sub = [t for t in tests if rng.random() < 0.6]
@@ -958,6 +967,20 @@ def check_C04(ctx):
                                   "# two runs of the same tests in different orders / subsets (text reporter, forking mode)\n# run A:\n" + ref[name][1] + "\n# run B:\n" + s.text(),
                                   found_input=True, facts={"mode": "fork"})
                 ref.setdefault(name, (v, s.text()))
+    # ... including how it ended: the failure and exception lines that name a test are the same in every order and subset
+    for g in groups:
+        refl = {}
+        for idx in g:
+            s, o = scens[idx], obs[idx]
+            if status_of(o) not in ("0", "1"):
+                continue
+            for path, v in observed_per_test(o, "text", s).items():
+                name = path.split("/")[-1]
+                if name in refl and refl[name][0] != tuple(v) and shown < 8:
+                    shown += 1
+                    ctx.violation(f"[C04] test {name} has (failure lines, exception lines)={tuple(v)} in one registration order and {refl[name][0]} in another",
+                                  "# two runs of the same tests in different orders / subsets (text reporter, forking mode)\n# run A:\n" + refl[name][1] + "\n# run B:\n" + s.text(), found_input=True, facts={"mode": "fork", "lines": True})
+                refl.setdefault(name, (tuple(v), s.text()))
     # what a test inherits from the runner - signal dispositions, blocked signals, open descriptors - is the same for every
     # test, wherever it stands and whatever ran (or died) before it
     for g in groups:
